@@ -38,6 +38,8 @@ func msgs() []proch.Msg {
 		{Seq: 7, Payload: big(1500), Emitter: e, Chain: 255, Target: 0, CL: 0},
 		{Seq: 1, Payload: []byte{9}, Emitter: proch.GovAddr, Chain: proch.GovChain, Target: 0, CL: 32}, // governance emitter on chain: must be dropped
 		{Seq: 2, Payload: []byte{0, 0, 0, 1}, Emitter: proch.GovAddr, Chain: proch.GovChain, Target: 0, CL: 32}, // injected by the operator
+		{Seq: 5, TSOff: 12, Payload: []byte{1, 2, 3}, Emitter: e, Chain: 2, Target: 255, CL: 1, Nonce: 9}, // 5: same id as 0, re-included one block later (inside the 30 s settlement window): another body, another digest
+		{Seq: 5, TSOff: 30, Payload: []byte{1, 2, 3}, Emitter: e, Chain: 2, Target: 255, CL: 1, Nonce: 9}, // 6: exactly at the window's edge
 	}
 }
 
@@ -72,7 +74,10 @@ func freeJobs(r *ev.Run) []job {
 			obs := append(rng(0, n+1), outsider)
 			msgIdx := []int{0, 1}
 			if n == 1 || (n == 2 && r.Thorough()) {
-				msgIdx = []int{0, 1, 2}
+				msgIdx = []int{0, 1, 2, 5}
+			}
+			if n == 1 && r.Thorough() {
+				msgIdx = []int{0, 1, 2, 5, 6}
 			}
 			depth := r.Pick(6, 7)
 			if n >= 3 {
